@@ -13,12 +13,14 @@ from pregex.core.pre import Pregex
 import pregex.core.classes as cl
 import pregex.core.operators as op
 import pregex.core.assertions as asr
+import pregex.core.groups as gr
 
 LEAVES = {'a': lambda: Pregex('a'), 'ab': lambda: Pregex('ab'), 'empty': lambda: Pregex(), 'dollar': lambda: Pregex('a$'),
           'from': lambda: cl.AnyFrom('a', 'c'), 'between': lambda: cl.AnyBetween('a', 'c'),
           'alt': lambda: op.Either('a', 'ba'), 'anchor': lambda: asr.MatchAtLineStart('a'),
-          'altdup': lambda: op.Either('ab', 'a', 'abc', 'ab')}
-UNI = O.universe(set('abcAB$\n'), (), 3, set('ab'), 5)
+          'altdup': lambda: op.Either('ab', 'a', 'abc', 'ab'), 'aei': lambda: cl.AnyFrom('a', 'e', 'i'), 'ce': lambda: cl.AnyFrom('c', 'e'),
+          'grp_ci': lambda: gr.Group('ab', is_case_insensitive=True), 'bos': lambda: asr.MatchAtStart('a')}
+UNI = O.universe(set('abceiAB$\n'), (), 3, set('ab'), 5)
 MATCH_TEXTS = ('ab\na$c', 'xab', 'ba', 'a', '', 'cab ab')
 
 
@@ -138,7 +140,7 @@ def judge(payload, params):
             stats['nontrivial'] += 1
         stats['cases'] += 1
         objs, created = [], []
-        rec0 = {'property': 'C20', 'kind': 'heap', 'replay_module': 'judge_heap', 'term': render(hist), 'term_raw': hist,
+        rec0 = {'property': params.get('prop', 'C20'), 'kind': 'heap', 'replay_module': 'judge_heap', 'term': render(hist), 'term_raw': hist,
                 'spelling': 'method', 'hashseed': params.get('hashseed', 0), 'refs': [h['ref'] for h in st['heap']]}
         try:
             for step, act in enumerate(hist):
@@ -159,6 +161,11 @@ def judge(payload, params):
                 if created[k]['table'] != tr:
                     d = O.first_diff(created[k]['table'], tr, UNI) if not isinstance(created[k]['table'], str) else {'error': created[k]['table']}
                     failures.append(dict(rec0, facet='value', detail=dict(d or {}, object=k + 1, emitted=created[k]['str'], reference=ref)))
+                elif not isinstance(created[k]['table'], str):
+                    gi, gr = dict(re.compile(created[k]['str'], O.FLAGS).groupindex), dict(re.compile(ref, O.FLAGS).groupindex)
+                    if gi != gr:
+                        failures.append(dict(rec0, facet='value', detail={'object': k + 1, 'emitted': created[k]['str'], 'reference': ref,
+                                                                          'groups': gi, 'expected_groups': gr}))
         except HistoryDependent as e:
             failures.append(dict(rec0, facet='history-dependent', detail={'message': str(e)[:400]}))
         except Exception as e:  # noqa
